@@ -300,6 +300,12 @@ def check(env, juncs, mode, every, case):
             fn = '%s.%08X.json' % (name, GOOD[name]['eid'])
             if fg.get(fn) is not None and fb.get(fn) != fg.get(fn):
                 probs.append(('json-file', 'output file %s differs when the junk is present' % fn))
+        if fs and len(juncs) == 1:
+            j = juncs[0][1]
+            if (j[0] == 'prefix') or (j[0] == 'set' and j[1] in (0, 1, 48, 49)) or j[0] in ('empty', 'byte', 'link', 'fault'):
+                # by construction no PEL: --json decodes the whole file, so every proper prefix counts as well
+                probs.append(('damaged-header-reported', '--json wrote %s for a file that is no PEL (%s)' % (sorted(fs), list(j))))
+                return probs
         if not fs:
             # the junk is not decodable (alone it produces no file): diagnostics about it belong on stderr only
             norm = lambda t, which: t.replace(os.path.join(env.root, which), '<dir>')
@@ -336,11 +342,16 @@ def check(env, juncs, mode, every, case):
                           % (len(vs), ' '.join(MODES[JSON_TWIN[mode]]))))
             return probs
         empty = empty or twin_empty
-    if mode == 'n' and len(juncs) == 1 and not empty:
+    if len(juncs) == 1 and not empty:
+        # by construction, whatever the tool says about the junk alone: a file without both section ids 'PH' and 'UH' in
+        # place (or shorter than the two headers) is a PEL for no mode
         j = juncs[0][1]
-        damaged = (j[0] == 'prefix' and j[1] < 72) or (j[0] == 'set' and j[1] in (0, 1, 48, 49)) or j[0] in ('empty', 'byte')
+        damaged = (j[0] == 'prefix' and j[1] < 72) or (j[0] == 'set' and j[1] in (0, 1, 48, 49)) or j[0] in ('empty', 'byte') \
+            or j[0] in ('link', 'fault')
         if damaged:
-            probs.append(('count-damaged-header', 'a file whose header is damaged (%s) is counted as a PEL' % (list(j),)))
+            probs.append(('count-damaged-header' if mode == 'n' else 'damaged-header-reported',
+                          'a file whose header is damaged or unreadable (%s) is %s' % (list(j), 'counted as a PEL' if mode == 'n' else 'reported')))
+            return probs
     if empty:
         if rb.stdout != rg.stdout:
             probs.append(('disturbed', 'stdout with the (undecodable) junk present differs from stdout without it'))
